@@ -393,6 +393,9 @@ class DT:
     def timestamp(self) -> Any:
         raise sym.HarnessError("datetime model: timestamp() is not modelled")
 
+    def date(self) -> "DateM":
+        return DateM(self.toordinal())
+
     def toordinal(self) -> Any:
         return self.wall() // DAY + 719163  # proleptic Gregorian ordinal of the wall-clock date (1970-01-01 is 719163)
 
@@ -457,6 +460,35 @@ class DT:
 
     def __format__(self, spec: str) -> str:
         return "<dt>"
+
+
+class DateM:
+    """datetime.date as its proleptic ordinal (possibly symbolic); usable as a dictionary key"""
+
+    def __init__(self, ordinal: Any) -> None:
+        self.ordinal = ordinal
+
+    def toordinal(self) -> Any:
+        return self.ordinal
+
+    def __eq__(self, o: Any) -> Any:  # type: ignore[override]
+        return (self.ordinal == o.ordinal) if isinstance(o, DateM) else False
+
+    def __ne__(self, o: Any) -> Any:  # type: ignore[override]
+        r = self.__eq__(o)
+        return ~r if isinstance(r, SymBool) else (not r)
+
+    def __lt__(self, o: Any) -> Any:
+        return self.ordinal < o.ordinal
+
+    def __le__(self, o: Any) -> Any:
+        return self.ordinal <= o.ordinal
+
+    def __hash__(self) -> int:
+        return 0x5EED if isinstance(self.ordinal, SymInt) else hash(self.ordinal)
+
+    def __repr__(self) -> str:
+        return f"DateM({self.ordinal!r})"
 
 
 TD.__vt_type__ = TD  # type: ignore[assignment]
